@@ -117,12 +117,42 @@ def boundary_block(r, first):
     return b
 
 
+SEL_LAST = 999983      # driver: the most recently created open position
+
+
+def forfeit_block(r, first):
+    """forfeits in several uptime accumulators at once: incentives on two or three different uptimes of at least a minute, a fresh
+    in-range position (create_at), a few seconds, then that position is withdrawn from (partially or fully) while the other liquidity
+    stays - redepositForfeitedIncentives has to hand each accumulator ITS forfeits - then time, collects and withdrawals of others."""
+    a0, a1 = max(1, int(first.get("amt0", "1000"))), max(1, int(first.get("amt1", "1000")))
+    b = []
+    ups = r.choice([[1, 2], [1, 3], [2, 4], [1, 2, 3], [3, 5], [1, 5], [2, 3, 4]])
+    for u in ups:
+        d = r.below(2)
+        b.append({"k": "incentive", "a": r.below(3), "d": d, "amt": str(r.choice([10**6, 10**9, 10**12]) * r.range(1, 9)),
+                  "rate": str(r.choice([10**18, 10**19, 10**21, 10**24]) * r.range(1, 9)), "u": u, "dt": 0})
+    sc = r.choice([1, 1, 2, 10])
+    b.append({"k": "create_at", "a": r.below(3), "edge": "lower", "wd": r.choice([1, 2, 10, 100, 5000]), "off": 0,
+              "amt0": str(max(1, a0 // sc)), "amt1": str(max(1, a1 // sc)), "min0": "0", "min1": "0"})
+    b.append({"k": "time", "dt": r.choice([1, 5, 30, 59])})
+    if r.chance(1, 3):
+        z = r.chance(1, 2)
+        b.append({"k": "swap_in", "a": r.below(3), "zfo": z, "amt": str(max(1, (a0 if z else a1) // 10**4)), "lim": "1"})
+    num, den = r.choice([(1, 1), (1, 1), (1, 2), (1, 3), (999, 1000)])
+    b.append({"k": "withdraw", "a": r.below(3), "sel": SEL_LAST, "own": True, "num": num, "den": den})
+    b.append({"k": "time", "dt": r.choice([1, 60, 3600, 86400])})
+    b.append({"k": "collect_inc", "a": r.below(3), "sels": [r.below(64), r.below(64)], "own": True})
+    if r.chance(1, 2):
+        b.append({"k": "withdraw", "a": r.below(3), "sel": r.below(64), "own": True, "num": 1, "den": r.choice([1, 2])})
+    return b
+
+
 def boundary_blocks(r, ops, nops):
     first = ops[0] if ops and ops[0].get("k") == "create" else {}
     out = list(ops)
     for _ in range(r.choice([1, 1, 2, 3])):
         at = r.range(1, max(1, min(len(out), nops - 6)))
-        out[at:at] = boundary_block(r, first)
+        out[at:at] = boundary_block(r, first) if r.chance(2, 3) else forfeit_block(r, first)
     return out
 
 
